@@ -138,9 +138,25 @@ func genCase(t *rapid.T) Case {
 		b = [2]float64{mag(t, "bx", shared), mag(t, "by", shared)}
 		c = [2]float64{mag(t, "cx", shared), mag(t, "cy", shared)}
 	case "grid-big":
-		k := uint(rapid.IntRange(1, 52).Draw(t, "k"))
+		// integer-valued ordinates; widths at the limits of int32 / int64 / float64-mantissa
+		// arithmetic are drawn as often as all other widths together, and every ordinate
+		// is at an extreme of the range half of the time (fat triangles: large determinants)
+		k := uint(rapid.IntRange(1, 62).Draw(t, "k"))
+		if rapid.Bool().Draw(t, "edgewidth") {
+			k = uint(rapid.SampledFrom([]int{15, 16, 26, 27, 30, 31, 32, 33, 52, 53, 54, 61, 62}).Draw(t, "kedge"))
+		}
 		lim := int64(1) << k
-		p := func(l string) float64 { return float64(rapid.Int64Range(-lim, lim).Draw(t, l)) }
+		p := func(l string) float64 {
+			switch rapid.IntRange(0, 4).Draw(t, l+"ext") {
+			case 0:
+				return float64(lim)
+			case 1:
+				return float64(-lim)
+			case 2:
+				return float64(lim - 1) // the largest value of a two's-complement type of that width
+			}
+			return float64(rapid.Int64Range(-lim, lim).Draw(t, l))
+		}
 		a = [2]float64{p("ax"), p("ay")}
 		b = [2]float64{p("bx"), p("by")}
 		c = [2]float64{p("cx"), p("cy")}
